@@ -221,6 +221,14 @@ def _child(conn, unit, timeout_ms):
         conn.close()
 
 
+def unit_deadline(specs, u):
+    if u[0] != 'contract':
+        return 0
+    target, cname = u[1].split('#')
+    c = [c for c in specs.contracts[target] if c.name == cname][0]
+    return c.options.get('deadline', 0)
+
+
 def run_units(repo, specs, units, jobs=16, timeout_ms=10000, unit_deadline_s=None):
     """one forked process per unit, at most `jobs` at a time, each under a hard wall-clock deadline (z3 does not
     always honour its own timeout): a unit that exceeds it is reported as status 'timeout' (undecided)"""
@@ -253,7 +261,7 @@ def run_units(repo, specs, units, jobs=16, timeout_ms=10000, unit_deadline_s=Non
             elif not pr.is_alive():
                 pr.join()
                 done.append(i)
-            elif time.time() - t0 > unit_deadline_s:
+            elif time.time() - t0 > max(unit_deadline_s, unit_deadline(specs, u)):
                 pr.terminate()
                 pr.join(5)
                 results[i] = {'unit': u, 'label': unit_label(u), 'status': 'timeout',
